@@ -822,6 +822,9 @@ impl Memory {
     }
 
     fn allocate_internal(&mut self, content: MetaValue) -> *mut CellContent {
+        #[cfg(picilisp_verif)]
+        if verif::collect_now() { self.collect(); }
+
         if self.first_free > self.cells.len() - 1 {
             self.collect();
         }
@@ -967,6 +970,9 @@ impl Memory {
             self.cells.truncate(used_count + min_free_cells + 1);
             self.first_free = used_count;
         }
+
+        #[cfg(picilisp_verif)]
+        self.verif_after_collect();
     }
 
     pub fn used_count(&self) -> usize {
@@ -990,3 +996,6 @@ impl Memory {
 
 #[cfg(test)]
 mod tests;
+
+#[cfg(picilisp_verif)]
+pub mod verif;
